@@ -199,6 +199,12 @@ class C06(Prop):
                 w = (m.get("damaged") or {}).get("weight", 0)
                 if m["kind"] == "heavy" and w > 3:
                     continue  # the CRC is not claimed to detect errors of weight > 3
+                # not one of the frames the generator sent intact - but is it present intact in the byte stream?
+                # (a frame cut at a block boundary, followed by another frame's 8-octet header block with its CRC)
+                stream = b"".join(bytes.fromhex(l.split()[1]) for l in case.script.split("\n") if l.startswith("feed ") and len(l.split()) > 1 and l.split()[1] != "-")
+                present = ["frame %d %d %d %s" % (c, d_, s_, hexs(p)) for c, d_, s_, p in dnp.frames_present(stream)]
+                if g in present:
+                    continue
                 fails.append(("delivered-not-sent", "delivered a frame that was not sent intact: " + g[:120]))
                 break
             j += 1
